@@ -1,6 +1,7 @@
 """Abstractions (proven contracts) and executor hooks shared by the checks."""
 from engine_m import oblig
 from engine_m import strings   # registers the bounded string layer
+from engine_m import fmtterms  # registers the string-term layer (enabled per obligation with opts['fmt_terms'])
 from engine_m.models import Abstraction, BoundAbstraction
 from engine_m.sym import En, IV, Agg, Opaque, mk_int
 import z3
